@@ -8,6 +8,6 @@ MC_Err  == {"below", "atabove", "nan"}
 \* thorough exhaustive configuration
 MCT_Cfgs == [S : 1..4, P : 1..4, Start : 0..5, sched : {"none", "lin16", "half4"},
              End : {0, 1, 20, 100}, mode : {"rep", "pmapq", "shard"}, thr : {"zero", "pos"}]
-MCT_Grad == {"ok", "zero", "nan", "inf", "huge", "tiny", "big", "small"}
+MCT_Grad == {"ok", "zero", "nan", "inf", "huge", "big"}
 MCT_Err  == {"below", "atabove", "nan", "inf"}
 ====
